@@ -201,7 +201,11 @@ FinishBits(e) ==
                     /\ Len(e.loaded[1].header) = 1 /\ e.loaded[1].header[1].version = hdr[1].version
                     /\ e.loaded[1].header[1].bound = hdr[1].bound
         wordsOK == e.words = AssembleModule(m)
-    IN (IF boundOK THEN {} ELSE {2}) \cup (IF versionOK /\ SameInsts(m, pm) THEN {} ELSE {8})
+        \* C06: "a bound above every id used": every result id of the finished module (ids taken from the builder)
+        all == AllInsts(m)
+        usedOK == Len(hdr) = 1 /\ hdr[1].bound[1] = 0 /\
+                  \A j \in 1..Len(all) : (all[j].rid # <<>> /\ all[j].rid[1][1] = 0 /\ all[j].rid[1][2] \in alloc) => all[j].rid[1][2] < hdr[1].bound[2]
+    IN (IF boundOK THEN {} ELSE {2}) \cup (IF usedOK THEN {} ELSE {8}) \cup (IF versionOK /\ SameInsts(m, pm) THEN {} ELSE {8})
        \cup (IF complete /\ ~(loadedOK /\ wordsOK) THEN {8} ELSE {})
 
 Init == /\ l = 1 /\ bad = <<>> /\ pm = EmptyModule /\ selF = None /\ selB = None /\ next = {1} /\ alloc = {}
